@@ -507,3 +507,10 @@ def c07_independence(E, blt, opts, r):
         d = cd.first_diff(r['trace'], r2['trace'])
         return [V_('c07-tie-order-dependence', "no tie logged, yet the record changes under tie order %s: %s" % (perm, d), **arith_sig(E))]
     return []
+
+def guarded_stats(E, blt, opts, r):
+    "not an oracle: exports the Guarded comparison statistics of this count"
+    V = E.V
+    if V.name != 'guarded': return []
+    geps = max(1, 10 ** V.guard // 2)
+    return [dict(kind='stats', detail='', sig=dict(maxDiff=V.maxDiff, minDiff=V.minDiff, geps=geps))]
